@@ -5,9 +5,12 @@ MODEL objects: `MultiOp.apply` (with the `(psi_i, psi_o)` ping-pong of
 `src/operator/multi/mod.rs`), `MultiOp.mul` (`*`, `*=`, `append`, `push_back`),
 `MultiOp.ofSingle`, `QReg.apply`. The statements hold for every queue (any length), every
 state and every scalar type: no ring axiom is used, so they also cover the `Float` instance
-the driver executes.
+the driver executes. The one exception is the last statement, `C04_commute` (operators on
+disjoint qubits commute), which goes through the reference semantics (`Qvnt/Lemmas/Refine.lean`)
+and is stated over a commutative ring.
 -/
 import Qvnt.Lemmas.Structure
+import Qvnt.Lemmas.Refine
 
 namespace Qvnt
 section
@@ -60,6 +63,30 @@ theorem C04_reg (r : QReg R) (a b : MultiOp R) :
 /-- applying a product leaves the buffer length unchanged -/
 theorem C04_reg_size (r : QReg R) (o : MultiOp R) : (r.apply o).psi.size = r.psi.size :=
   QReg.apply_psi_size r o
+
+end
+
+section
+variable {R : Type} [CommRing R] [Consts R]
+open Qvnt.Spec
+
+/-- **Operators on disjoint qubits commute**: if two built operators act on (and are controlled
+by) disjoint sets of qubits, their product applies the same in either order. (`hs`, `hh`: the
+constants are `1/√2`, `1/2`; the programs use 64-bit masks.) -/
+theorem C04_commute (hs : 2 * (Consts.invSqrt2 : R) * Consts.invSqrt2 = 1)
+    (hh : 2 * (Consts.half : R) = 1) (phaseOf : QftPhases R) (e1 e2 : OpExpr R)
+    (hw1 : e1.WordOK) (hw2 : e2.WordOK) (o1 o2 : MultiOp R)
+    (hb1 : OpExpr.build phaseOf e1 = .ok o1) (hb2 : OpExpr.build phaseOf e2 = .ok o2)
+    (hd : MultiOp.actOn o1 &&& MultiOp.actOn o2 = 0) (ψ : State R) :
+    (MultiOp.mul o1 o2).apply ψ = (MultiOp.mul o2 o1).apply ψ := by
+  obtain ⟨g1, s1, _, hr1⟩ := build_ok_iff hs hh phaseOf e1 hw1 o1 hb1
+  obtain ⟨g2, s2, _, hr2⟩ := build_ok_iff hs hh phaseOf e2 hw2 o2 hb2
+  rw [MultiOp.apply_mul, MultiOp.apply_mul, hr1.apply, hr2.apply, hr2.apply, hr1.apply]
+  rw [hr1.actOn, hr2.actOn] at hd
+  refine actAll_comm' g1 g2 (fun a ha b hb => ?_) ψ
+  have hb' : b.support &&& s1 = 0 :=
+    disj_of_within (hr2.within b hb) (by rw [Nat.and_comm]; exact hd)
+  exact disj_of_within (hr1.within a ha) (by rw [Nat.and_comm]; exact hb')
 
 end
 
